@@ -572,8 +572,8 @@ func c29gen(r *rand.Rand, tier string, emit func(string)) {
 		}
 	}
 	// named types with methods against interfaces: bounded-exhaustive over small method sets
-	tms := []string{"-", "Av0", "Ap0", "Av1", "Av0,Bv1", "Av0,Bp1", "Ap0,bv0", "bv0", "bp1,Av0"}
-	ims := []string{"-", "A0", "A1", "A0,B1", "b0", "A0,b0", "B1"}
+	tms := []string{"-", "Av0", "Ap0", "Av1", "Av0,Bv1", "Av0,Bp1", "Ap0,bv0", "bv0", "bp1,Av0", "Av2", "Ap2,Bv1"}
+	ims := []string{"-", "A0", "A1", "A0,B1", "b0", "A0,b0", "B1", "A2", "A2,B1"}
 	for _, k := range []string{"i", "s", "e", "p"} {
 		for _, tm := range tms {
 			for _, im := range ims {
@@ -581,6 +581,8 @@ func c29gen(r *rand.Rand, tier string, emit func(string)) {
 			}
 		}
 	}
+	// field and method lookup through embedded fields
+	c29lookGen(tier, emit)
 	// precompiled import tables
 	var paths []string
 	for p := range imports.Packages {
@@ -588,7 +590,7 @@ func c29gen(r *rand.Rand, tier string, emit func(string)) {
 	}
 	sort.Strings(paths)
 	if tier == "quick" {
-		always := []string{"fmt", "io", "time", "sync", "reflect", "os", "sort", "strings", "errors", "bytes"}
+		always := []string{"fmt", "io", "time", "sync", "reflect", "os", "sort", "strings", "errors", "bytes", "testing", "log"}
 		pick := map[string]bool{}
 		for _, p := range always {
 			pick[p] = true
